@@ -1,0 +1,216 @@
+// Copyright 2019 Samaritan Authors
+//
+// Licensed under the Apache License, Version 2.0 (the "License");
+// you may not use this file except in compliance with the License.
+// You may obtain a copy of the License at
+//
+//      http://www.apache.org/licenses/LICENSE-2.0
+//
+// Unless required by applicable law or agreed to in writing, software
+// distributed under the License is distributed on an "AS IS" BASIS,
+// WITHOUT WARRANTIES OR CONDITIONS OF ANY KIND, either express or implied.
+// See the License for the specific language governing permissions and
+// limitations under the License.
+
+//go:build verif
+// +build verif
+
+package hotkey
+
+import (
+	"fmt"
+	"time"
+)
+
+// This file only exists with the build tag "verif". It gives the model-based
+// verification harness read-only access to the counter's frequency list and to
+// the collector's sorted slice, a scripted minute clock and synchronous
+// triggers of the two periodic jobs. Nothing here changes the behaviour of the
+// package.
+
+// VerifFreqNode is one node of the frequency list: its frequency and the keys
+// it holds in list order (head first: the head of the first node is the key
+// the counter evicts next).
+type VerifFreqNode struct {
+	Freq uint64   `json:"freq"`
+	Keys []string `json:"keys"`
+}
+
+// VerifCounterState is a non-destructive snapshot of a Counter.
+type VerifCounterState struct {
+	Capacity int               `json:"capacity"`
+	Size     int               `json:"size"` // len(items)
+	Counts   map[string]uint64 `json:"counts"`
+	Nodes    []VerifFreqNode   `json:"nodes"`
+	// Integrity lists every structural defect found in the linked list
+	// (empty when the structure is sound).
+	Integrity []string `json:"integrity"`
+}
+
+// VerifSnapshot returns the per-key counts and the order of the keys of every
+// frequency node without resetting the counter, and checks the structural
+// integrity of the doubly linked lists.
+func VerifSnapshot(c *Counter) VerifCounterState {
+	c.mu.Lock()
+	defer c.mu.Unlock()
+
+	st := VerifCounterState{
+		Capacity: int(c.capacity),
+		Size:     len(c.items),
+		Counts:   make(map[string]uint64, len(c.items)),
+	}
+	bad := func(format string, args ...interface{}) {
+		if len(st.Integrity) < 32 {
+			st.Integrity = append(st.Integrity, fmt.Sprintf(format, args...))
+		}
+	}
+
+	if c.freqHead != nil && c.freqHead.prev != nil {
+		bad("freqHead.prev != nil (freq %d)", c.freqHead.freq)
+	}
+	seen := make(map[*itemNode]bool)
+	limit := len(c.items) + 4
+	var prevNode *freqNode
+	steps := 0
+	for fn := c.freqHead; fn != nil; fn = fn.next {
+		steps++
+		if steps > limit {
+			bad("frequency list longer than the number of items (cycle?)")
+			break
+		}
+		if fn.prev != prevNode {
+			bad("freq node %d: prev pointer does not point to the previous node", fn.freq)
+		}
+		if prevNode != nil && prevNode.freq >= fn.freq {
+			bad("frequencies not strictly increasing: %d then %d", prevNode.freq, fn.freq)
+		}
+		if fn.freq == 0 {
+			bad("freq node with frequency 0")
+		}
+		node := VerifFreqNode{Freq: fn.freq}
+		if fn.itemHead == nil {
+			bad("empty freq node %d in the list", fn.freq)
+			if fn.itemTail != nil {
+				bad("freq node %d: itemHead nil but itemTail set", fn.freq)
+			}
+		} else if fn.itemHead.prev != nil {
+			bad("freq node %d: itemHead.prev != nil", fn.freq)
+		}
+		var prevItem *itemNode
+		isteps := 0
+		for it := fn.itemHead; it != nil; it = it.next {
+			isteps++
+			if isteps > limit {
+				bad("freq node %d: item list longer than the number of items (cycle?)", fn.freq)
+				break
+			}
+			if it.prev != prevItem {
+				bad("item %q: prev pointer does not point to the previous item", it.key)
+			}
+			if it.freqNode != fn {
+				bad("item %q: freqNode pointer does not point to the node that lists it", it.key)
+			}
+			if seen[it] {
+				bad("item %q listed twice", it.key)
+			}
+			seen[it] = true
+			if mi, ok := c.items[it.key]; !ok {
+				bad("item %q in the list but not in the map", it.key)
+			} else if mi != it {
+				bad("item %q: the map holds a different node", it.key)
+			}
+			node.Keys = append(node.Keys, it.key)
+			prevItem = it
+		}
+		if fn.itemTail != prevItem {
+			bad("freq node %d: itemTail does not point to the last item", fn.freq)
+		}
+		st.Nodes = append(st.Nodes, node)
+		prevNode = fn
+	}
+	for key, it := range c.items {
+		if it.key != key {
+			bad("map key %q holds item %q", key, it.key)
+		}
+		if !seen[it] {
+			bad("item %q in the map but not reachable from freqHead", key)
+		}
+		if it.freqNode != nil {
+			st.Counts[key] = it.freqNode.freq
+		} else {
+			bad("item %q has no freq node", key)
+		}
+	}
+	return st
+}
+
+// VerifSetClock replaces the minute clock of the package (what
+// collector_test.go does by assigning nowInMinute) and returns a function
+// that restores the previous one.
+func VerifSetClock(fn func() int64) (restore func()) {
+	old := nowInMinute
+	nowInMinute = fn
+	return func() { nowInMinute = old }
+}
+
+// VerifSetDefaultIntervals changes the default collect / evict intervals used
+// by collectors created afterwards and returns a function restoring them.
+func VerifSetDefaultIntervals(collect, evict time.Duration) (restore func()) {
+	oc, oe := defaultCollectInterval, defaultEvictInterval
+	defaultCollectInterval, defaultEvictInterval = collect, evict
+	return func() { defaultCollectInterval, defaultEvictInterval = oc, oe }
+}
+
+// VerifCollect runs one collect period synchronously.
+func VerifCollect(c *Collector) { c.collect() }
+
+// VerifEvictStale runs one stale eviction synchronously.
+func VerifEvictStale(c *Collector) { c.evictStale() }
+
+// VerifHotKey is one entry of the sorted hot-key slice.
+type VerifHotKey struct {
+	Name string `json:"k"`
+	Heat int    `json:"v"`
+	Lut  int64  `json:"lut"`
+}
+
+// VerifKeys returns the collector's sorted hot-key slice (name, heat value,
+// last update minute) read under the collector's lock.
+func VerifKeys(c *Collector) []VerifHotKey {
+	c.rwmu.RLock()
+	defer c.rwmu.RUnlock()
+	out := make([]VerifHotKey, 0, len(c.keys))
+	for _, k := range c.keys {
+		out = append(out, VerifHotKey{Name: k.Name, Heat: int(k.Counter.Value()), Lut: k.Counter.LastUpdateTimeInMinute()})
+	}
+	return out
+}
+
+// VerifReadReport does what the HOTKEY handler does with the result of
+// HotKeys(): it walks the returned slice and reads name and heat of every
+// entry (no lock held, as in the handler). between, if not nil, is called
+// after every entry.
+func VerifReadReport(keys []HotKey, between func(i int)) []VerifHotKey {
+	out := make([]VerifHotKey, 0, len(keys))
+	for i, k := range keys {
+		out = append(out, VerifHotKey{Name: k.Name, Heat: int(k.Counter.Value())})
+		if between != nil {
+			between(i)
+		}
+	}
+	return out
+}
+
+// VerifCounterNames returns the names of the registered per-backend counters.
+func VerifCounterNames(c *Collector) []string {
+	c.rwmu.RLock()
+	defer c.rwmu.RUnlock()
+	out := make([]string, 0, len(c.counters))
+	for n := range c.counters {
+		out = append(out, n)
+	}
+	return out
+}
+
+// VerifCapacity returns the collector's capacity.
+func VerifCapacity(c *Collector) int { return int(c.capacity) }
